@@ -60,7 +60,7 @@ func runC18(c *Ctx, _ []string) {
 			{cfg: sCfg{"BWTS+MTFT", "ANS1", 16384, 5, 64, 0, false}, shape: "skewed", size: 100000, rjobs: 7},
 			{cfg: sCfg{"TEXT", "NONE", 4096, 8, 32, 0, false}, shape: "accent", size: 60000, rjobs: 16},
 			// one block above the 4 MiB threshold of the inverse BWT, decoded with more jobs than blocks
-			{cfg: sCfg{"BWT", "NONE", 8 << 20, 1, 0, 0, false}, shape: "text", size: 5 << 20, rjobs: 4},
+			{cfg: sCfg{"BWT", "NONE", 8 << 20, 1, 0, 5 << 20, false}, shape: "text", size: 5 << 20, rjobs: 4}, // size hint present: the single decoding task gets all 4 jobs
 		}
 		return ps
 	}
